@@ -50,7 +50,8 @@ def _resolve_locale(
     elif isinstance(_locale, str):
         try:
             locale = Locale.parse(_locale)
-        except UnknownLocaleError:
+        except (UnknownLocaleError, ValueError):
+            # ValueError is for identifiers that are empty or malformed.
             locale = default
     else:
         raise LiquidTypeError(
